@@ -350,3 +350,100 @@ func cloneWorkers(beta int, seed uint64, nInit int, checkDepth bool, step func()
 		return ""
 	})
 }
+
+// sharedTreeReaders: one tree, no writer, eight goroutines that only read it
+// (Get, Min, Max, Len, Inorder, InorderAfter, Cursor with Next/Prev/Inorder) and
+// verify what they read against the key set. Reading is all they do, so the
+// race detector must stay silent and every result must be right.
+func sharedTreeReaders(beta int, seed uint64, n int, step func()) string {
+	t := stree.New(beta, cmpElem)
+	pr := rand.New(rand.NewPCG(seed, 7))
+	present := map[int]int{} // key -> tag
+	for i := 0; i < n; i++ {
+		k := pr.IntN(3*n+1) * 2
+		if t.Add(Elem{Key: k, Tag: i + 1}) {
+			present[k] = i + 1
+		}
+	}
+	// some removals, so that the shape is not a pure insertion shape
+	for k := range present {
+		if pr.IntN(5) == 0 {
+			t.Remove(Elem{Key: k})
+			delete(present, k)
+		}
+	}
+	keys := make([]int, 0, len(present))
+	for k := range present {
+		keys = append(keys, k)
+	}
+	sort.Ints(keys)
+	if len(keys) == 0 {
+		return ""
+	}
+	return concurrently(8, seed, func(g int, r *rand.Rand) string {
+		for it := 0; it < 300; it++ {
+			i := r.IntN(len(keys))
+			k := keys[i]
+			switch r.IntN(6) {
+			case 0:
+				e, ok := t.Get(Elem{Key: k})
+				if !ok || e.Tag != present[k] {
+					return fmt.Sprintf("goroutine %d (readers only): Get(%d)=(%v,%v), want tag %d", g, k, e, ok, present[k])
+				}
+				if _, ok := t.Get(Elem{Key: k + 1}); ok {
+					return fmt.Sprintf("goroutine %d (readers only): Get(%d) finds an absent key", g, k+1)
+				}
+			case 1:
+				if t.Len() != len(keys) || t.Min().Key != keys[0] || t.Max().Key != keys[len(keys)-1] {
+					return fmt.Sprintf("goroutine %d (readers only): Len/Min/Max = %d/%d/%d, want %d/%d/%d", g, t.Len(), t.Min().Key, t.Max().Key, len(keys), keys[0], keys[len(keys)-1])
+				}
+			case 2:
+				j := 0
+				okAll := true
+				t.Inorder(func(e Elem) bool {
+					if j >= len(keys) || e.Key != keys[j] {
+						okAll = false
+						return false
+					}
+					j++
+					return true
+				})
+				if !okAll || j != len(keys) {
+					return fmt.Sprintf("goroutine %d (readers only): Inorder lists %d keys correctly of %d", g, j, len(keys))
+				}
+			case 3:
+				j := i
+				for e := range t.InorderAfter(Elem{Key: k}) {
+					if j >= len(keys) || e.Key != keys[j] {
+						return fmt.Sprintf("goroutine %d (readers only): InorderAfter(%d) yields %d at position %d", g, k, e.Key, j-i)
+					}
+					if j++; j > i+20 {
+						break
+					}
+				}
+			default:
+				cu := t.Cursor(Elem{Key: k})
+				if !cu.Valid() || cu.Key().Key != k {
+					return fmt.Sprintf("goroutine %d (readers only): Cursor(%d) valid=%v key=%v", g, k, cu.Valid(), cu.Key())
+				}
+				for d := 1; d <= 8; d++ {
+					cu.Next()
+					if i+d >= len(keys) {
+						if cu.Valid() {
+							return fmt.Sprintf("goroutine %d (readers only): Cursor(%d) then %d x Next is still valid at %v", g, k, d, cu.Key())
+						}
+						break
+					}
+					if !cu.Valid() || cu.Key().Key != keys[i+d] {
+						return fmt.Sprintf("goroutine %d (readers only): Cursor(%d) then %d x Next is at %v (valid=%v), want %d", g, k, d, cu.Key(), cu.Valid(), keys[i+d])
+					}
+				}
+				if ac := t.Cursor(Elem{Key: k + 1}); ac.Valid() {
+					return fmt.Sprintf("goroutine %d (readers only): Cursor(%d) of an absent key is valid", g, k+1)
+				}
+			}
+			step()
+		}
+		return ""
+	})
+}
